@@ -116,33 +116,35 @@ func (c *c20Run) mgmtOp(r *rand.Rand) {
 		})
 	case 1:
 		addr := pick()
+		desc := fmt.Sprintf("d%d", r.IntN(100))
 		c.spawn("update-peer", func() {
 			var cur *api.Peer
 			s.ListPeer(c20Bg, &api.ListPeerRequest{Address: addr}, func(p *api.Peer) { cur = p })
 			if cur != nil {
-				cur.Conf.Description = fmt.Sprintf("d%d", r.IntN(100))
+				cur.Conf.Description = desc
 				s.UpdatePeer(c20Bg, &api.UpdatePeerRequest{Peer: cur, DoSoftResetIn: true})
 			}
 		})
 	case 2:
 		name := fmt.Sprintf("ps%d", r.IntN(3))
+		polPfx, polMed, polExport, polDelete := c01V4Pool[r.IntN(len(c01V4Pool))], int64(r.IntN(50)), r.IntN(2) == 0, r.IntN(2) == 0
 		c.spawn("policy-edit", func() {
 			ds := &api.DefinedSet{DefinedType: api.DefinedType_DEFINED_TYPE_PREFIX, Name: name,
-				Prefixes: []*api.Prefix{{IpPrefix: c01V4Pool[r.IntN(len(c01V4Pool))], MaskLengthMin: 16, MaskLengthMax: 32}}}
+				Prefixes: []*api.Prefix{{IpPrefix: polPfx, MaskLengthMin: 16, MaskLengthMax: 32}}}
 			s.AddDefinedSet(c20Bg, &api.AddDefinedSetRequest{DefinedSet: ds})
 			st := &api.Statement{Name: "st-" + name, Conditions: &api.Conditions{PrefixSet: &api.MatchSet{Name: name, Type: api.MatchSet_TYPE_ANY}},
-				Actions: &api.Actions{RouteAction: api.RouteAction_ROUTE_ACTION_ACCEPT, Med: &api.MedAction{Type: api.MedAction_TYPE_REPLACE, Value: int64(r.IntN(50))}}}
+				Actions: &api.Actions{RouteAction: api.RouteAction_ROUTE_ACTION_ACCEPT, Med: &api.MedAction{Type: api.MedAction_TYPE_REPLACE, Value: polMed}}}
 			pol := &api.Policy{Name: "pol-" + name, Statements: []*api.Statement{st}}
 			s.AddPolicy(c20Bg, &api.AddPolicyRequest{Policy: pol, ReferExistingStatements: false})
 			dir := api.PolicyDirection_POLICY_DIRECTION_IMPORT
-			if r.IntN(2) == 0 {
+			if polExport {
 				dir = api.PolicyDirection_POLICY_DIRECTION_EXPORT
 			}
 			as := &api.PolicyAssignment{Name: table.GLOBAL_RIB_NAME, Direction: dir, Policies: []*api.Policy{{Name: "pol-" + name}}, DefaultAction: api.RouteAction_ROUTE_ACTION_ACCEPT}
 			s.AddPolicyAssignment(c20Bg, &api.AddPolicyAssignmentRequest{Assignment: as})
 			s.ListPolicy(c20Bg, &api.ListPolicyRequest{}, func(*api.Policy) {})
 			s.ListPolicyAssignment(c20Bg, &api.ListPolicyAssignmentRequest{Name: table.GLOBAL_RIB_NAME}, func(*api.PolicyAssignment) {})
-			if r.IntN(2) == 0 {
+			if polDelete {
 				s.DeletePolicyAssignment(c20Bg, &api.DeletePolicyAssignmentRequest{Assignment: as})
 				s.DeletePolicy(c20Bg, &api.DeletePolicyRequest{Policy: pol, All: true})
 				s.DeleteDefinedSet(c20Bg, &api.DeleteDefinedSetRequest{DefinedSet: ds, All: true})
@@ -192,6 +194,7 @@ func (c *c20Run) mgmtOp(r *rand.Rand) {
 		})
 	case 10, 11:
 		which := r.IntN(3)
+		watchFor := time.Duration(1+r.IntN(50)) * time.Millisecond
 		c.spawn("watcher", func() {
 			ctx, cancel := context.WithCancel(c20Bg)
 			var n atomic.Int64
@@ -211,7 +214,7 @@ func (c *c20Run) mgmtOp(r *rand.Rand) {
 				err = s.WatchEvent(ctx, cb, WatchPostUpdate(true, "", ""), WatchPeer())
 			}
 			_ = err
-			time.Sleep(time.Duration(1+r.IntN(50)) * time.Millisecond) // virtual
+			time.Sleep(watchFor) // virtual
 			cancel()
 		})
 	default:
@@ -301,7 +304,7 @@ func envIntDefault(name string, def int) int {
 func c20History(t *testing.T, rec *vlib.Rec, idx int) {
 	r := vlib.CaseRand("c20", idx)
 	n := simStart(t, &api.Global{Asn: simLocalAS, RouterId: "1.1.1.1"})
-	h := &c01Hist{t: t, rec: rec, idx: idx, r: r, n: n, apiUU: map[string][]byte{}, looped: map[string]map[string]bool{}, events: map[string]int{}}
+	h := &c01Hist{t: t, rec: rec, idx: idx, r: r, n: n, apiUU: map[string][]byte{}, looped: map[string]map[string]bool{}, events: map[string]int{}, tolerateDown: true}
 	c := &c20Run{h: h, rec: rec, overlap: map[string]bool{}, active: map[string]int{}}
 	// schedule diversification through the lock-free yield points in gobgp
 	yseed := r.Uint64()
